@@ -1,0 +1,26 @@
+package types
+
+import (
+	"errors"
+
+	"cosmossdk.io/math"
+)
+
+// MinPriceRatio is the finest price grid a pool may use: every price <-> tick conversion
+// takes a number of steps proportional to 1/(ratio-1).
+var MinPriceRatio = math.LegacyNewDecWithPrec(10001, 4)
+
+// ValidatePoolParams checks the parameters of a new pool: 0 <= fee rate < 1,
+// price ratio >= 1.0001 and -1 < base offset < 1.
+func ValidatePoolParams(feeRate, priceRatio, baseOffset math.LegacyDec) error {
+	if feeRate.IsNegative() || feeRate.GTE(math.LegacyOneDec()) {
+		return errors.New("fee rate must be in [0, 1)")
+	}
+	if priceRatio.LT(MinPriceRatio) {
+		return errors.New("price ratio must be at least 1.0001")
+	}
+	if baseOffset.Abs().GTE(math.LegacyOneDec()) {
+		return errors.New("base offset must be in (-1, 1)")
+	}
+	return nil
+}
